@@ -35,7 +35,7 @@ ASSUMPTIONS = [
     "after a raising call new empty bins (adaptive growth before the failure) and a lossless dtype promotion are allowed",
 ]
 
-FAULTS = ["iadd_other_bins", "iadd_other_dim", "iadd_scalar", "iadd_list", "iadd_str", "isub_larger", "isub_none", "imul_negative", "imul_str", "imul_list",
+FAULTS = ["iadd_other_bins", "iadd_other_dim", "iadd_scalar", "iadd_list", "iadd_str", "isub_larger", "isub_slightly_larger", "isub_none", "imul_negative", "imul_str", "imul_list",
           "imul_hist", "idiv_zero", "idiv_negative", "idiv_str", "idiv_hist", "fill_wrong_shape", "fill_weight_str", "fill_n_wrong_shape",
           "fill_n_weights_length", "fill_n_weights_str", "fill_n_growth_bad_weights", "fill_n_infinite", "dtype_invalid", "dtype_lossy", "merge_bad_amount", "merge_bad_axis", "merge_gap", "index_bad",
           "set_frequencies_shape", "set_frequencies_negative", "set_errors2_shape", "set_errors2_negative", "projection_bad", "collection_mismatch",
@@ -197,6 +197,17 @@ def check_history(case, ctx: Ctx):
                 else:
                     h += operand
             attempt(f)
+        elif name == "isub_slightly_larger":
+            # one ulp more than is there: the result would be negative by ~1e-17
+            if not np.any(np.asarray(h.frequencies) > 0):
+                continue
+            o = other(scale=1.0000000000000002)
+            if not np.any(np.asarray(o.frequencies, dtype=np.longdouble) > np.asarray(h.frequencies, dtype=np.longdouble)):
+                continue
+            def f():
+                nonlocal h
+                h -= o
+            attempt(f)
         elif name == "isub_larger":
             if not np.any(np.asarray(h.frequencies) > 0):
                 continue
@@ -275,12 +286,20 @@ def check_history(case, ctx: Ctx):
             if not gapped:
                 continue
             amt = max(b.bin_count for b in h.binnings) + 1
-            attempt(lambda: h.merge_bins(amt, inplace=True))
+            how = op[1] if len(op) > 1 else None
+            if how == "axis_index":
+                attempt(lambda: h.merge_bins(amt, axis=gapped[0], inplace=True))
+            elif how == "axis_name":
+                attempt(lambda: h.merge_bins(amt, axis=h.axis_names[gapped[0]], inplace=True))
+            elif how == "min_frequency":
+                attempt(lambda: h.merge_bins(min_frequency=float(np.asarray(h.frequencies).sum()) + 1.0, axis=gapped[0], inplace=True))
+            else:
+                attempt(lambda: h.merge_bins(amt, inplace=True))
         elif name == "index_bad":
             attempt(lambda: h[tuple([0] * (d + 1))] if d > 1 else h[h.bin_count + 3])
         elif name in ("set_frequencies_shape", "set_frequencies_negative", "set_errors2_shape", "set_errors2_negative"):
             shape = tuple(s + (1 if "shape" in name else 0) for s in h.shape)
-            val = np.ones(shape) * (-1 if "negative" in name else 1)
+            val = np.ones(shape) * ((-5e-17 if (len(op) > 1 and op[1]) else -1) if "negative" in name else 1)
             if "negative" in name and val.size == 0:
                 continue
             attempt(setattr, h, "frequencies" if "frequencies" in name else "errors2", val)
@@ -320,7 +339,7 @@ def check_history(case, ctx: Ctx):
             if any_valid:
                 valid_before_fault = True
             # operations the statement says are refused
-            if name in ("isub_larger", "imul_negative", "idiv_negative", "iadd_other_dim", "iadd_scalar", "iadd_list", "iadd_str", "imul_list", "imul_hist",
+            if name in ("isub_larger", "isub_slightly_larger", "imul_negative", "idiv_negative", "iadd_other_dim", "iadd_scalar", "iadd_list", "iadd_str", "imul_list", "imul_hist",
                         "idiv_hist", "set_frequencies_negative", "set_errors2_negative", "set_frequencies_shape", "set_errors2_shape", "iadd_other_bins",
                         "merge_gap", "merge_bad_axis", "index_bad", "projection_bad", "collection_mismatch", "dtype_invalid", "fill_n_wrong_shape", "fill_n_weights_length"):
                 require(raised is not None, "fault_accepted", f"{what}: the invalid call was accepted")
@@ -378,6 +397,10 @@ def one_op(draw):
         return [name, draw(st.booleans())]
     if name == "fill_n_growth_bad_weights":
         return [name, draw(st.sampled_from(["short", "long", "str", "2d"]))]
+    if name == "merge_gap":
+        return [name, draw(st.sampled_from([None, "axis_index", "axis_name", "min_frequency"]))]
+    if name in ("set_frequencies_negative", "set_errors2_negative"):
+        return [name, draw(st.booleans())]
     if name == "merge_bad_axis":
         return [name, draw(st.sampled_from([7, -1, "no_such_axis", 1.5]))]
     return [name]
@@ -412,7 +435,7 @@ def histories(draw, tier="quick"):
         n = len(spec["axes"][j]["pairs"])
         ps = [[float(i), float(i) + (0.5 if i < n - 1 else 1.0)] for i in range(n)] if n > 1 else [[0.0, 1.0]]
         spec["axes"][j] = {"form": "static", "pairs": ps, "incl": True}
-        ops.insert(draw(st.integers(0, len(ops))), ["merge_gap"])
+        ops.insert(draw(st.integers(0, len(ops))), ["merge_gap", draw(st.sampled_from([None, "axis_index", "axis_name", "min_frequency"]))])
     return {"spec": spec, "ops": ops}
 
 
